@@ -1147,15 +1147,15 @@ class HandHistory(Iterable[State]):
 
                 if isinstance(operation, HoleDealing):
                     if operation.player_index == position:
-                        for i, card in enumerate(operation.cards):
-                            if card:
-                                raw_hole_cards[position][i] = repr(card)
+                        _update_raw_hole_cards(
+                            raw_hole_cards[position],
+                            operation.cards,
+                        )
                 elif isinstance(operation, HoleCardsShowingOrMucking):
-                    for i, card in enumerate(operation.hole_cards):
-                        if card:
-                            raw_hole_cards[operation.player_index][i] = repr(
-                                card,
-                            )
+                    _update_raw_hole_cards(
+                        raw_hole_cards[operation.player_index],
+                        operation.hole_cards,
+                    )
 
                 if isinstance(operation, BoardDealing):
                     actions += '/'
@@ -1225,17 +1225,15 @@ class HandHistory(Iterable[State]):
                     amount = -state.payoffs[operation.player_index]
                     actions += f'r{amount}'
                 elif isinstance(operation, HoleDealing):
-                    for i, card in enumerate(operation.cards):
-                        if card:
-                            raw_hole_cards[operation.player_index][i] = repr(
-                                card,
-                            )
+                    _update_raw_hole_cards(
+                        raw_hole_cards[operation.player_index],
+                        operation.cards,
+                    )
                 elif isinstance(operation, HoleCardsShowingOrMucking):
-                    for i, card in enumerate(operation.hole_cards):
-                        if card:
-                            raw_hole_cards[operation.player_index][i] = repr(
-                                card,
-                            )
+                    _update_raw_hole_cards(
+                        raw_hole_cards[operation.player_index],
+                        operation.hole_cards,
+                    )
                 elif isinstance(operation, BoardDealing):
                     actions += '/'
                     board_cards += '/' + ''.join(map(repr, operation.cards))
@@ -1274,6 +1272,27 @@ class HandHistory(Iterable[State]):
         )
 
         return match_state
+
+
+def _update_raw_hole_cards(
+        raw_hole_cards: list[str],
+        cards: Iterable[Card],
+) -> None:
+    raw_cards = [repr(card) for card in cards if card]
+
+    for raw_card in raw_cards:
+        if raw_card in raw_hole_cards:
+            continue
+
+        indices = [i for i, c in enumerate(raw_hole_cards) if not c]
+
+        if not indices:
+            indices = [
+                i for i, c in enumerate(raw_hole_cards) if c not in raw_cards
+            ]
+
+        if indices:
+            raw_hole_cards[indices[0]] = raw_card
 
 
 def parse_action(
